@@ -28,6 +28,7 @@ def step (st : S) (toks : List String) : S × String :=
          | none => "-no-close"))
     | _, _ => (st, "bad-op")
   | ["closed-in-time", v] => (st, if v == "yes" then "ok" else "BAD:close-did-not-return")
+  | ["calls-returned", v] => (st, if v == "yes" then "ok" else "BAD:a-call-never-returned")
   | ["goroutines-left", n] => (st, if n == "0" then "ok" else "BAD:background-work-after-close")
   | "echo" :: rest => (st, " ".intercalate rest)
   | _ => (st, "bad-op")
